@@ -583,6 +583,10 @@ def correspondence(res, tier, rng):
         expect.append(exp)
         meta.append(m)
 
+    # (0) the step-count rule itself: split-vs-single on stub objects (spec-level, cheap)
+    oracle_grid_split(res, real_objects=False)
+    res.count("grid-split histories at function level", 2 * len(grid_histories()))
+
     # (a) fault-free histories, Tempo and MeanFieldTempo
     for api in ("tempo", "mft"):
         seqs = gen_histories(rng, tier)
@@ -1050,8 +1054,92 @@ def oracle_getters(res, pre, post, ops):
     return 0
 
 
+def grid_histories():
+    """(regime, start, dt, targets): split histories whose reached grid must not depend on the
+    split — far origins advanced one step per call with on-grid float targets, long runs with
+    the last target a hair below / on / above a grid point, reached in two or three calls"""
+    out = []
+    for s, d, n in ((-1.0e6, 0.01, 20), (1.0e5, 0.001, 40), (1.0e7, 0.1, 12), (-3.0e4, 0.001, 25),
+                    (0.0, 0.1, 30)):
+        out.append(("far-origin-step-by-step", s, d, [s + k * d for k in range(1, n + 1)]))
+        out.append(("far-origin-two-steps-per-call", s, d, [s + k * d for k in range(2, n + 1, 2)]))
+    for s, d in ((0.0, 0.1), (0.5, 0.01), (-2.0, 0.05), (1.0e3, 0.1)):
+        for n in (40, 400, 1000):
+            for rel in (-2.0e-7, -1.0e-9, -1.0e-12, 0.0, 1.0e-12, 1.0e-9, 2.0e-7):
+                last = s + (n + rel) * d
+                for p in (1, n // 2, n - 5, n - 1):
+                    out.append(("many-steps-last-target-near-grid-point", s, d,
+                                [s + p * d, last]))
+                out.append(("many-steps-last-target-near-grid-point", s, d,
+                            [s + (n // 3) * d, s + (n - 1 + rel) * d, last]))
+    return out
+
+
+def oracle_grid_split(res, real_objects=False):
+    """split-vs-single at the level of the step-count rule: the real `_get_num_step` of Tempo
+    and MeanFieldTempo on stub objects (cheap, thousands of histories), and — in the search —
+    a few real computations in the same regimes"""
+    import oqupy
+    from . import oq
+    found = 0
+    for cls in (oqupy.Tempo, oqupy.MeanFieldTempo):
+        stub_cls = type("Stub", (), {"_time": cls._time, "_get_num_step": cls._get_num_step})
+        seen = set()
+        for regime, s, d, targets in grid_histories():
+            stub = stub_cls()
+            stub._start_time = s
+            stub._parameters = type("P", (), {"dt": d})()
+            k = 0
+            for e in targets:
+                k += stub._get_num_step(k, e)
+            single = stub._get_num_step(0, max(targets))
+            if k != single and regime not in seen:
+                seen.add(regime)
+                found += 1
+                res.fail("split-grid:%s:%s" % (cls.__name__, regime),
+                         {"api": cls.__name__, "level": "_get_num_step on a stub object",
+                          "start_time": s, "dt": d,
+                          "targets": targets if len(targets) <= 6 else
+                          [targets[0], targets[1], "...", targets[-1]],
+                          "number_of_calls": len(targets),
+                          "steps_reached_by_the_split_history": k,
+                          "steps_of_one_call_with_the_furthest_target": single,
+                          "how": "k = 0; for e in targets: k += obj._get_num_step(k, e); compare "
+                                 "with obj._get_num_step(0, max(targets))"})
+    if not real_objects:
+        return found
+    real = [("tempo", -1.0e6, 0.01, [-1.0e6 + k * 0.01 for k in range(1, 21)],
+             "far-origin-step-by-step"),
+            ("tempo", 0.0, 0.1, [395 * 0.1, (400 - 2.0e-7) * 0.1],
+             "many-steps-last-target-near-grid-point"),
+            ("mft", 1.0e5, 0.001, [1.0e5 + k * 0.001 for k in range(1, 41)],
+             "far-origin-step-by-step"),
+            ("mft", 0.0, 0.1, [35 * 0.1, (40 - 2.0e-7) * 0.1],
+             "many-steps-last-target-near-grid-point")]
+    for api, s, d, targets, regime in real:
+        mk = oq.cheap_tempo if api == "tempo" else oq.cheap_mft
+        a = mk(s, d)
+        for e in targets:
+            a.compute(e, progress_type="silent")
+        b = mk(s, d)
+        b.compute(max(targets), progress_type="silent")
+        da, db = dyn_snapshot(api, a.get_dynamics()), dyn_snapshot(api, b.get_dynamics())
+        if not same_dynamics(da, db):
+            name = {"tempo": "Tempo", "mft": "MeanFieldTempo"}[api]
+            found += 1
+            res.fail("split-grid:%s:%s:real-object" % (name, regime),
+                     {"api": name, "start_time": s, "dt": d, "number_of_calls": len(targets),
+                      "first_targets": targets[:2], "last_target": targets[-1],
+                      "states_after_the_split_history": len(da["times"]),
+                      "states_after_one_call_with_the_furthest_target": len(db["times"]),
+                      "max_state_difference": max_diff(da, db)})
+    return found
+
+
 def search(res, rng=None):
     """Spec-level oracles on the real code (used when a proof/tie broke)."""
+    # the grid reached must not depend on how the run is split (function level + real objects)
+    oracle_grid_split(res, real_objects=True)
     # retry after a transient failure, for both kinds of exception class
     for api in ("tempo", "mft"):
         for base in (False, True):
